@@ -297,6 +297,29 @@ func newLiveEnv() *liveEnv {
 		case <-time.After(handlerCtxWait):
 		}
 	})
+	// a peer (or a proxy) that answers a unary Connect call with 503 and the beginning of a JSON
+	// error body, and then takes its time
+	mux.HandleFunc("/verif.Svc/StallInErrorBody", func(w http.ResponseWriter, req *http.Request) {
+		o := e.get(req.Header.Get("X-Call"))
+		o.mu.Lock()
+		o.Started = true
+		o.mu.Unlock()
+		defer close(o.returned)
+		_, _ = io.Copy(io.Discard, req.Body)
+		w.Header().Set("Content-Type", "application/json")
+		w.WriteHeader(503)
+		_, _ = w.Write([]byte(`{"code":"unavailable","message":"try ag`))
+		if f, ok := w.(http.Flusher); ok {
+			f.Flush()
+		}
+		select {
+		case <-req.Context().Done():
+			o.mu.Lock()
+			o.CtxDone, o.CtxErr = true, req.Context().Err().Error()
+			o.mu.Unlock()
+		case <-time.After(handlerCtxWait):
+		}
+	})
 	e.srv1 = httptest.NewUnstartedServer(mux)
 	e.srv1.Start()
 	e.srv2 = httptest.NewUnstartedServer(mux)
@@ -1133,7 +1156,7 @@ func liveFamily(r *h.Run, rng *h.Rng, fam string, cancelMode bool) {
 		}
 	}
 	// the response message of a unary call has arrived, its end has not
-	for _, proto := range []string{"grpc", "grpcweb", "connect"} {
+	for _, proto := range []string{"grpc", "grpcweb", "connect", "connect-error-body"} {
 		for _, h2 := range []bool{false, true} {
 			if proto == "grpc" && !h2 {
 				continue // (trailers need HTTP/2 here)
@@ -1235,7 +1258,14 @@ func (e *liveEnv) liveUnaryStall(r *h.Run, fam, proto string, h2, deadline bool)
 	c.obs = e.get(c.id)
 	c.cc = &countingClient{inner: srv.Client()}
 	path, opts := "/verif.Svc/StallAfterMessage", liveClientOpts(proto)
-	if proto == "connect" {
+	if proto == "connect-error-body" {
+		// unary Connect, non-200: the error is the JSON body; the peer has sent the beginning of
+		// it and stalls: the client is reading the error body when the context ends
+		proto = "connect"
+		c.proto = "connect"
+		path, opts = "/verif.Svc/StallInErrorBody", liveClientOpts("connect")
+		c.log = append(c.log, "[the peer answers 503 with the beginning of a JSON error body and stalls]")
+	} else if proto == "connect" {
 		// unary Connect: the body is the message. The client limits messages to 16 bytes, the
 		// peer has sent 64 and stalls: the client is throwing the rest away when the context ends
 		path, opts = "/verif.Svc/StallInBody", append(opts, connect.WithReadMaxBytes(16))
